@@ -142,3 +142,9 @@ Definition entry_sopts (r : assignment) : sopts :=
 
 (* the pair a caller hands on: the configured one when kept, "" "" when dropped *)
 Definition kept_auth (keep : bool) : option (tok * tok) := Some (if keep then (TUser, TPass) else (TEmpty, TEmpty)).
+
+(* the option slice snapshotted at the call is built in the function (in the loop iteration)
+   itself: the translator prints OI "$<slice>" for "whatever the slice held before" when it is
+   appended to without having been constructed on this path *)
+Definition fresh_list (l : list (cexp * oitem)) : bool :=
+  forallb (fun gi => match snd gi with OI n _ _ => negb (String.prefix "$" n) end) l.
